@@ -180,10 +180,11 @@ def fixtures():
 
 def snapshot(det) -> str:
     import numpy as np
+    import probes
 
     h = hashlib.sha256()
     for name in ("photon", "pixel", "signal", "image"):
-        a = getattr(det, name)._array
+        a = probes.held_array(probes.container(det, name))
         h.update(name.encode())
         if a is not None:
             h.update(np.ascontiguousarray(a).tobytes())
